@@ -20,9 +20,9 @@ INF = H.INF
 SMALL = ["one", "chain2", "chain3", "chain4", "indep2", "indep3", "fanout", "fanin", "diamond", "one+chain2", "split2", "split3", "split2>b", "split2!>b", "a>split2"]
 MEDIUM = ["one+chain3", "chain2+chain2", "fanin3", "a>split2>c", "split2+chain2", "diamond+one", "split2+plain>c", "indep4"]
 LARGE = ["split2,split2>c", "split2>diamond", "split3>b", "split3!>b+one", "chain3+b>split2", "split4>b", "chain6", "indep5"]
-MEDIUM_QUICK = ["one+chain3", "chain2+chain2", "fanin3", "a>split2>c", "split2+chain2", "diamond+one"]
+MEDIUM_QUICK = ["one+chain3", "chain2+chain2", "fanin3", "a>split2>c", "split2+chain2"]
 FAIL1_QUICK = ["chain2", "chain3", "fanin", "fanout", "one+chain2", "diamond", "split2!>b"]
-LARGE_QUICK = ["split3>b", "split3!>b+one", "chain3+b>split2", "chain6", "indep5"]
+LARGE_QUICK = ["split3>b", "chain3+b>split2", "chain6"]
 SAMPLED = ["split2>diamond", "split2,split2>c", "split5>b+split3", "2x chain4 + split2", "chain10", "indep7", "chain3+b>split3"]
 FIDELITY = ["diamond", "split2!>b", "one+chain2", "split2>b"]
 ALL = SMALL + MEDIUM + LARGE
@@ -79,7 +79,18 @@ def tasks_fidelity(ctx):
     return [(H.Opts(sp, loop="real", vis=(0, INF), fail=99), 0, 1) for sp in (FIDELITY if ctx.thorough else FIDELITY[:2])]
 
 
+def deductive(ctx):
+    """engine D: Job.done is True only for a stored, non-errored result; NodeExecution.get_runnable_tasks
+    releases jobs only after every predecessor node is done and none is errored or unrunnable"""
+    from contracts import runnable as R, job_done as JD
+    from pyvc.verify import verify, summarize
+
+    for c in (JD.done_contract("C15"), R.node_contract("C15")):
+        summarize(ctx, verify(ctx, c))
+
+
 def run(ctx):
+    deductive(ctx)
     ctx.level = "other"
     ctx.explanation = (
         "Bounded check (engine B) of the scheduling decision functions under the sequential loop (expand_workflow) and the asynchronous "
